@@ -3,7 +3,7 @@ import os
 
 def harness_args(run, tier, n, cases):
     base = cases[:-len(".cases")]
-    wire_n = 600 if tier == "quick" else 3000
+    wire_n = 1500 if tier == "quick" else 4000
     return [
         ["-seed", run.seed, "-n", n, "-tier", tier, "-pass", "pure", "-out", cases],
         ["-seed", run.seed, "-n", wire_n, "-tier", tier, "-pass", "wire", "-out", base + "_wire.cases"],
@@ -15,7 +15,7 @@ PROP = {
     "id": "C03",
     "harness": "c03",
     "driver": "c03",
-    "n_quick": 6000,
+    "n_quick": 30000,
     "n_thorough": 250000,
     "harness_args": harness_args,
     "harness_timeout": 2400,
